@@ -324,9 +324,9 @@ func c11Child(r *ev.Run, batch int) {
 		c := cc.col
 		var sm []oval
 		switch {
-		case c.IsMap() && c.Name == "map_ss", c.IsMap() && c.Name == "map_is":
+		case c.IsMap() && c.Name == "map_ss", c.IsMap() && c.Name == "map_is", c.IsMap() && c.Name == "bmap_ss":
 			sm = allMaps(cc.univ, cc.vals)
-		case c.IsSet() && (c.Name == "set_int" || c.Name == "set_str" || c.Name == "set_uuid"):
+		case c.IsSet() && (c.Name == "set_int" || c.Name == "set_str" || c.Name == "set_uuid" || c.Name == "bset_int"):
 			sm = orderedLists(cc.univ[:3])
 		case c.IsOptional(), c.IsScalar():
 			sm = cc.small()
